@@ -283,8 +283,7 @@ def runH (c : CaseSt) (t : List String) : Option (String × CaseSt) :=
     let (r, st) := st.hInlayHints (pathOf p) (l0.toNat! + 1) (l1.toNat! + 1)
     upd (match r with
       | none => "none"
-      | some none => "PANIC"
-      | some (some l) => listed (l.map (fun x => s!"{x.1}:{x.2.1}:{hexOf x.2.2}")), st)
+      | some l => listed (l.map (fun x => s!"{x.1}:{x.2.1}:{hexOf x.2.2}")), st)
   | ["h_wsym", q] =>
     let query := asciiLowerStr ((unhexStr? q).getD "")
     let r := st.hWorkspaceSymbols query asciiLowerStr strContains
@@ -354,6 +353,22 @@ def runQ (c : CaseSt) (t : List String) : String × CaseSt :=
       | some lc => (match wordAt lc ch.toNat! with
           | none => "none"
           | some w => hexOf (String.ofList w), c)
+  | ["annot", tid, l, e] =>
+    match c.text tid with
+    | none => ("0", c)
+    | some t =>
+      (if parameterHasAnnotation (linesOf t.toList) l.toNat! e.toNat! then "1" else "0", c)
+  | ["docfmt", tid] =>
+    match c.text tid with
+    | none => ("-", c)
+    | some t =>
+      (hexOf (String.ofList (formatDocstring t.toList)), c)
+  | ["fnpos", tid, l, n] =>
+    match c.text tid with
+    | none => ("0-0", c)
+    | some t =>
+      let r := findFunctionNamePosition (linesOf t.toList) l.toNat! ((unhexStr? n).getD "").toList
+      (s!"{r.1}-{r.2}", c)
   | ["defs", p] =>
     (sorted ((st.defs.filter (·.file == pathOf p)).map defFull), c)
   | ["usages", p] => (listed ((st.usagesOf (pathOf p)).map usageStr), c)
